@@ -192,6 +192,9 @@ func (x *Explorer) feasible(c *Term) string {
 		x.sh.mu.Lock()
 		x.sh.Unknown++
 		x.sh.mu.Unlock()
+		if os.Getenv("VERIF_DEBUG") != "" {
+			fmt.Fprintf(os.Stderr, "DEBUG unknown feasibility in %s (%s)\n", x.e.topFunc(), x.name)
+		}
 	}
 	return r
 }
